@@ -134,6 +134,16 @@ pub enum Gop {
 }
 
 impl Gop {
+    /// The same operation with another value argument.
+    pub fn with_value(self, v: Val) -> Gop {
+        match self {
+            Gop::Ins(_) => Gop::Ins(v),
+            Gop::Set(_) => Gop::Set(v),
+            Gop::TryIns(_) => Gop::TryIns(v),
+            Gop::GetIns(_) => Gop::GetIns(v),
+            other => other,
+        }
+    }
     pub fn text(&self) -> String {
         match self {
             Gop::Ins(v) => format!("ins {}", v),
